@@ -88,7 +88,8 @@ def generate(seed, tier):
             if r.random() < 0.3:
                 tps[-1]["via"] = "register"      # registered in code next to the ones the service sent
         if r.random() < 0.5:
-            tps[r.randrange(n)]["force_bad"] = True
+            # one tracepoint the agent cannot interpret: an unknown stage, or a metric of a type it does not know
+            tps[r.randrange(n)]["force_bad"] = r.choice((True, "metric"))
         lists.append(tps)
     return {"arm": "lists", "lists": lists, "knobs": common.draw_knobs(r, stall_p=0.0)}
 
@@ -125,13 +126,15 @@ def build(svc, tp_id, c, basename, line, tpb):
     args, watches = build_args(tp_id, c)
     metrics = [tpb.Metric(name="m%s_%d" % (tp_id, j), type=(tpb.MetricType.COUNTER, tpb.MetricType.GAUGE)[j])
                for j in range(c["metrics"])]
+    if c.get("_odd_metric"):
+        metrics.append(tpb.Metric(name="m%s_odd" % tp_id, type=99))      # enums are open on the wire
     return svc.make_tp(tp_id, basename, line, args, watches, metrics)
 
 
 def reference(c, line):
     """-> None (not demanded) or dict: where ('line', n) / ('call',) / None (uninterpretable), and actions."""
     stage = c["stage"]
-    if stage == "bogus_stage":
+    if stage == "bogus_stage" or c.get("_odd_metric"):
         return {"where": None}
     if stage is not None:
         kind = "line" if stage.startswith("line") else "method"
@@ -186,7 +189,9 @@ def execute(s, ch):
                 c = combo_of(tp["combo"])
                 if s["arm"] == "lists":
                     c["_period0"] = True
-                if tp.get("force_bad"):
+                if tp.get("force_bad") == "metric" and tp.get("via") != "register":
+                    c["_odd_metric"] = True
+                elif tp.get("force_bad"):
                     c["stage"] = "bogus_stage"
                 tp_id = "g%dt%d" % (gi, ti)
                 if tp.get("via") == "register":
